@@ -17,7 +17,7 @@ BUILTIN_NAMES = set("""len min max abs int bool bytes bytearray str isinstance
 range tuple list dict set frozenset sorted reversed enumerate zip sum any all
 pow divmod ord chr hex map iter next getattr hasattr memoryview type id
 callable print object super repr round bin filter issubclass setattr
-NotImplemented""".split())
+NotImplemented float""".split())
 
 BIGPOW = 1 << 20
 
@@ -110,6 +110,9 @@ def binop(op, a, b):
             return Raises("TypeError")
         except ZeroDivisionError:
             return Raises("ZeroDivisionError")
+        except ValueError:
+            # negative shift count
+            return Raises("ValueError")
         except Exception:
             return UNK
         return UNK
@@ -464,7 +467,15 @@ def call_method(interp, base, attr, args, kwargs, st, node):
             tot += len(base) * max(0, len(args[0]) - 1)
             return ABytes(tot, type(base).__name__)
         return ABytes(None, type(base).__name__)
+    if isinstance(base, bytearray) and attr == "reverse" and not args:
+        base.reverse()
+        return None
     if isinstance(base, bytearray) and attr in ("extend", "append"):
+        if len(args) == 1 and isinstance(args[0], (bytes, bytearray) if attr == "extend" else int):
+            try:
+                getattr(base, attr)(args[0])
+            except ValueError:
+                return UNK
         return None
     # abstract byte strings -------------------------------------------------------
     k = _bkind(base)
@@ -637,6 +648,11 @@ def m_int(i, args, kw, st, node):
     if not args:
         return 0
     v = args[0]
+    if isinstance(v, AObj) and v.cnode is not None and v.ident not in st.havoc:
+        for nm in ("__int__", "__index__"):
+            r = i.repo.find_method(v.mod, v.cnode, nm)
+            if r is not None:
+                return i.call_func(AFunc(r[0], r[1], self_obj=v, cls=v.cnode), [], {}, st, node)
     if isinstance(v, (int, float)) and len(args) == 1:
         return int(v)
     if isinstance(v, (str, bytes)) and all(is_concrete(a) for a in args) and \
@@ -731,7 +747,9 @@ def m_isinstance(i, args, kw, st, node):
     for n in names:
         if isinstance(n, AClass):
             if n.node.name in ("IntegerGMP", "IntegerNative", "IntegerCustom",
-                               "IntegerBase") and tn in ("int", "bool"):
+                               "IntegerBase") and tn in ("int", "bool") and not any(
+                    v is False and k.endswith("." + n.node.name) for k, v in i.extra_models.items()):
+                # ints stand for Integer objects unless the class itself is interpreted
                 return Unknown("bool")
             continue
         if n == tn or (n == "int" and tn == "bool") or n == "object":
@@ -811,6 +829,8 @@ def m_anyall(is_any):
 
 
 def m_pow(i, args, kw, st, node):
+    if len(args) == 3 and args[2] is None:
+        args = args[:2]
     if all(isinstance(a, int) for a in args) and len(args) in (2, 3):
         try:
             if len(args) == 2 and args[1] > 100000:
@@ -1040,6 +1060,9 @@ EXT_MODELS = {
     "binascii.b2a_base64": lambda i, a, k, s, n: ABytes(None, "bytes"),
     "os.urandom": m_urandom,
     "math.ceil": m_unknown("int"), "math.log": m_unknown(None),
+    "float": m_unknown(None),
+    "math.gcd": lambda i, a, k, s, n: __import__("math").gcd(*a) if a and all(isinstance(x, int) for x in a) else Unknown("int"),
+    "math.isqrt": lambda i, a, k, s, n: __import__("math").isqrt(a[0]) if a and isinstance(a[0], int) and a[0] >= 0 else Unknown("int"),
 }
 
 
